@@ -59,17 +59,17 @@ class C13(EgSpec):
     ]
 
     def model_input(self, stream, case, impl_obs):
+        pc = core.sx_parse(case)
         if stream['name'] == 'invariant':
-            pc = core.sx_parse(case)
-            return core.sx_show(['egc'] + pc[1:])
-        if stream['name'] == 'lazy':
+            return core.sx_show(['egc'] + [x for x in pc[1:] if x != ['lazy']])
+        if is_lazy_case(pc):
             return None      # judged on the implementation alone (two runs of the same history, observed and unobserved)
         return case
 
     def evaluate(self, stream, case, impl_obs, model_obs, ctx):
         pc, pi = core.sx_parse(case), core.sx_parse(impl_obs)
         out = []
-        if stream['name'] == 'lazy':
+        if is_lazy_case(pc):
             cons = field(pi, 'cons')
             for c in (cons[1:] if cons else []):
                 if c != 'ok':
